@@ -147,7 +147,7 @@ def run(ctx):
     nm = run_cmd(['nm'] + objs)
     symbols = sorted({l.split()[2] for l in nm.split('\n') if len(l.split()) == 3 and l.split()[1] == 'T' and l.split()[2].startswith('embedded_pairing_') and 'core_arch' not in l})
     for cfg in bcfgs:
-        rc, out, err = harness.run_driver(bexes[cfg][0], None, args=['--trials', '8' if ctx.quick else '60', '--seed', str(ctx.seed)], timeout=1800)
+        rc, out, err = harness.run_driver(bexes[cfg][0], None, args=['--trials', '12' if ctx.quick else '60', '--seed', str(ctx.seed)], timeout=1800)
         f = harness.classify_failure(rc, err)
         if f:
             ctx.violation('san:%s:capi_drv:%s' % (cfg, f), err[-2000:], {'config': cfg})
